@@ -153,6 +153,57 @@ def s_pure(F, res):
         res.add([ok("S-PURE", key, "crates/tx3-tir/src/reduce/mod.rs", "no statics in tx3-tir; no Cell/Mutex/atomic/time/env/thread calls in %d functions" % len(reach))])
 
 
+def shadow(F, res):
+    """Rust resolves `x.m()` to an *inherent* method of x's type before any trait method.  If a type of the IR family gets an
+    inherent method with the name of a traversal-trait method it implements (Apply / Composite / Node, also through the blanket
+    `impl<T: Composite> Apply for T`), every `child.m()` in the traversal silently stops recursing through the trait and runs
+    the inherent method instead.  Inside the stages' closure no call may resolve to such a shadowing method."""
+    trait_methods = {}
+    for i in F.impls:
+        tr = i.get("trait")
+        if tr in (APPLY, NODE, COMPOSITE) and i.get("crate") == "tx3_tir":
+            trait_methods.setdefault(tr, set()).update(x["name"] for x in i["items"])
+    for tr in (APPLY, COMPOSITE):
+        if not trait_methods.get(tr):
+            raise BrokenCheck("no impl of %s found" % tr)
+    implements = {}
+    for i in F.impls:
+        tr = i.get("trait")
+        if tr in (APPLY, NODE, COMPOSITE):
+            implements.setdefault(i["self"], set()).add(tr)
+            if tr == COMPOSITE:
+                implements[i["self"]].add(APPLY)   # blanket impl<T: Composite> Apply for T
+    shadows = {}
+    for i in F.impls:
+        if i.get("trait") or i["self"] not in implements:
+            continue
+        for it in i["items"]:
+            for tr in implements[i["self"]]:
+                if it["name"] in trait_methods.get(tr, ()):
+                    shadows[it["path"]] = (i["self"], tr, it["name"])
+    res.count("inherent methods shadowing a traversal-trait method", len(shadows))
+    cg = CallGraph(F)
+    roots = [p for p, f in F.fns.items() if f.get("impl_trait") in (APPLY, NODE, COMPOSITE) and not is_derive(f)]
+    roots += ["tx3_tir::reduce::apply_args", "tx3_tir::reduce::apply_inputs", "tx3_tir::reduce::apply_fees", "tx3_tir::reduce::reduce"]
+    reach = cg.reachable([r for r in roots if r in F.fns])
+    hits = []
+    for p in sorted(reach):
+        f = F.fns.get(p)
+        if f is None or f["crate"] != "tx3_tir" or p in shadows:
+            continue
+        for bi, t in mir.calls(f):
+            r = t.get("resolved") or t.get("callee") or ""
+            if r in shadows or (t.get("callee") or "") in shadows:
+                hits.append((f, t["line"], shadows.get(r) or shadows[t["callee"]], r))
+    key = "tx3_tir stages|no call resolves to an inherent method that shadows a traversal-trait method"
+    if hits:
+        f, line, (ty, tr, name), r = hits[0]
+        res.add([finding("SHADOW", key + "|" + r, where(f, line), "`.%s()` on a %s in %s resolves to the inherent method %s, not to %s::%s: the traversal does not recurse into that node (e.g. an asset whose policy is still a parameter counts as constant and is folded)" % (
+            name, ty.split("::")[-1], f["path"].split("::")[-1] if not f.get("owner") else f["owner"].split("::")[-1], r.split("::")[-2] + "::" + name, tr.split("::")[-1], name))])
+    else:
+        res.add([ok("SHADOW", key, "crates/tx3-tir/src/reduce/mod.rs", "%d shadowing inherent methods exist; none is called from the %d functions of the stages' closure" % (len(shadows), len(reach)))])
+
+
 def node_t1(F, res):
     fam = c06.tir_family(F)
     rows = c06.rows_for("tir")
@@ -174,10 +225,12 @@ def run(ctx):
     res.rule("T2", "Node impls recurse with Node::apply; only Expression's hands the rebuilt node to the visitor")
     res.rule("T1", "Node::apply visits every Expression-bearing field")
     res.rule("S-PURE", "no hidden state in the stages")
+    res.rule("SHADOW", "no traversal call resolves to an inherent method shadowing the trait method")
     s_reduce(F, res)
     s_unwrap(F, res)
     c06.s_kind(F, res)
     c06.t2(F, res)
     node_t1(F, res)
     s_pure(F, res)
+    shadow(F, res)
     return res
